@@ -8,6 +8,7 @@ import (
 	"fmt"
 	"io"
 	"log"
+	"math"
 	"mime/multipart"
 	"net"
 	"os"
@@ -2475,7 +2476,14 @@ func (s *Server) serveConnCounted(c net.Conn, countConcurrency bool) error {
 		ctx.Response.secureErrorLogMessage = s.SecureErrorLogMessage
 
 		if err == nil {
-			idleConnTime.Store(0)
+			if idleConnTime.Swap(0) == idleConnClosing {
+				// Shutdown found this connection idle and is closing it. The
+				// byte that arrived at that very moment does not start a
+				// request: nothing is dispatched on a connection that is
+				// already being closed.
+				idleConnTime.Store(idleConnClosing)
+				break
+			}
 			s.setState(c, StateActive)
 
 			if s.ReadTimeout > 0 {
@@ -2791,7 +2799,11 @@ func (s *Server) serveConnCounted(c net.Conn, countConcurrency bool) error {
 			ctx.Request.bodyStream = nil
 		}
 
-		idleConnTime.Store(ctx.time.Unix())
+		if (br == nil || br.Buffered() == 0) && (bw == nil || bw.Buffered() == 0) {
+			// With a pipelined request already buffered, or a response not yet
+			// flushed, the connection is not idle: Shutdown must not close it.
+			idleConnTime.Store(ctx.time.Unix())
+		}
 		s.setState(c, StateIdle)
 		ctx.Request.Reset()
 		ctx.Response.Reset()
@@ -3220,12 +3232,18 @@ func (s *Server) writeErrorResponse(bw *bufio.Writer, ctx *RequestCtx, serverNam
 
 var idleConnTimePool sync.Pool
 
+// idleConnClosing is stored in a connection's idle time once closeIdleConns has
+// decided to close it.
+const idleConnClosing = math.MinInt64
+
 func (s *Server) closeIdleConns() {
 	s.idleConnsMu.Lock()
 	now := time.Now().Unix()
 	for c, ict := range s.idleConns {
 		t := ict.Load()
-		if t != 0 && now-t >= 0 {
+		if t != 0 && t != idleConnClosing && now-t >= 0 && ict.CompareAndSwap(t, idleConnClosing) {
+			// The connection was idle at the moment of the swap and is now
+			// claimed: its goroutine will not start a request on it any more.
 			_ = c.Close()
 			// Don't recycle ict: the connection's own goroutine still holds it
 			// and stores into it, so only that goroutine may return it.
